@@ -187,11 +187,31 @@ class SQLDataStore(datastore.DataStore):
     dtq = dtq.where(self._trials_table.c.owner_id == study_resource.owner_id)
     dtq = dtq.where(self._trials_table.c.study_id == study_resource.study_id)
 
+    # Delete operations queries
+    dsoq = self._suggestion_operations_table.delete()
+    dsoq = dsoq.where(
+        self._suggestion_operations_table.c.owner_id == study_resource.owner_id
+    )
+    dsoq = dsoq.where(
+        self._suggestion_operations_table.c.study_id == study_resource.study_id
+    )
+    deoq = self._early_stopping_operations_table.delete()
+    deoq = deoq.where(
+        self._early_stopping_operations_table.c.owner_id
+        == study_resource.owner_id
+    )
+    deoq = deoq.where(
+        self._early_stopping_operations_table.c.study_id
+        == study_resource.study_id
+    )
+
     with self._lock:
       if not self._connection.execute(eq).fetchone()[0]:
         raise NotFoundError('Study %s does not exist.' % study_name)
       self._write_or_rollback(dsq)
       self._write_or_rollback(dtq)
+      self._write_or_rollback(dsoq)
+      self._write_or_rollback(deoq)
       self._connection.commit()
 
   def list_studies(self, owner_name: str) -> List[study_pb2.Study]:
